@@ -32,6 +32,8 @@ struct Session {
     awaiting_ack: VecDeque<(usize, oneshot::Sender<Result<RxPacket, MqttError>>)>,
     subscriptions: VecDeque<(usize, mpsc::UnboundedSender<RxPacket>)>,
     retrasmit_queue: VecDeque<(usize, Bytes)>,
+    // Identifiers of inbound QoS 2 messages answered with PUBREC and not yet released by PUBREL.
+    unreleased: VecDeque<u16>,
 }
 
 struct Connection {
@@ -94,6 +96,7 @@ where
         session.awaiting_ack.clear();
         session.subscriptions.clear();
         session.retrasmit_queue.clear();
+        session.unreleased.clear();
     }
 
     fn validate_packet_size(connection: &Connection, packet: &[u8]) -> Result<(), MqttError> {
@@ -222,12 +225,25 @@ where
                 let qos = publish.qos;
                 let maybe_packet_id = publish.packet_identifier;
 
-                if let Some(subscription_identifier) =
-                    publish
-                        .subscription_identifier
-                        .map(|subscription_identifier| {
-                            NonZero::from(subscription_identifier).get().value() as usize
-                        })
+                // A QoS 2 message already answered with PUBREC and not yet released is a
+                // re-delivery: it is acknowledged again but not handed to the application twice.
+                let redelivered = qos == QoS::ExactlyOnce
+                    && maybe_packet_id
+                        .map(|packet_id| session.unreleased.contains(&packet_id.get()))
+                        .unwrap_or(false);
+
+                if let (QoS::ExactlyOnce, false, Some(packet_id)) =
+                    (qos, redelivered, maybe_packet_id)
+                {
+                    session.unreleased.push_back(packet_id.get());
+                }
+
+                if let Some(subscription_identifier) = publish
+                    .subscription_identifier
+                    .filter(|_| !redelivered)
+                    .map(|subscription_identifier| {
+                        NonZero::from(subscription_identifier).get().value() as usize
+                    })
                 {
                     if let Some((_, subscription)) =
                         utils::linear_search_by_key(&session.subscriptions, subscription_identifier)
@@ -323,6 +339,7 @@ where
             }
             RxPacket::Pubrel(pubrel) => {
                 let packet_id = pubrel.packet_identifier;
+                session.unreleased.retain(|id| *id != packet_id.get());
                 Self::ack::<PubcompReason>(tx, packet_id).await?
             }
             // Not expected once the connection is established; nothing waits for them.
@@ -389,6 +406,7 @@ where
                     awaiting_ack: VecDeque::new(),
                     subscriptions: VecDeque::new(),
                     retrasmit_queue: VecDeque::new(),
+                    unreleased: VecDeque::new(),
                 },
                 connection: Connection {
                     disconnection_timestamp: None,
